@@ -224,6 +224,7 @@ pub fn key_case_av1(d: &[u8]) -> props::c07::KeyCase {
         av1: Av1Frame { obus, seq: Some(seq) },
         vp9: Vp9Key { profile: 0, byte4: 0, sync: 0, width: 1, height: 1, wlen: 1, hlen: 1, render: None, color: None, tail: 0 },
         second_frame: false,
+        rejected_first: 0,
     }
 }
 
@@ -370,13 +371,47 @@ fn known_sigs() -> &'static Vec<(String, String)> {
 /// Panics inside muxide are judged only by the C12 targets; elsewhere they merely abort the case.
 pub fn fuzz_entry(target: &str, d: &[u8]) {
     crate::exec::install_panic_hook();
+    let only = std::env::var("VERIF_FUZZ_PROP").ok();
     for (prop, out) in evaluate(target, d) {
+        if let Some(o) = &only {
+            if o != prop {
+                continue;
+            }
+        }
         for v in &out.violations {
             if known_sigs().iter().any(|(p, s)| p == prop && s == &v.sig) {
                 continue;
             }
             eprintln!("FUZZ-VIOLATION property={} sig={} :: {}", prop, v.sig, v.detail);
             std::process::abort();
+        }
+    }
+}
+
+
+/// Small deterministic seed corpus (committed under fuzz/seeds): valid frames for the byte-level targets,
+/// pseudo-random byte strings for the structured ones (their decoders accept any bytes).
+pub fn write_seeds(root: &std::path::Path) {
+    use proptest::strategy::{Strategy, ValueTree};
+    use proptest::test_runner::{Config, RngSeed, TestRunner};
+    let mut runner = TestRunner::new(Config { rng_seed: RngSeed::Fixed(7), failure_persistence: None, ..Config::default() });
+    for t in TARGETS {
+        let dir = root.join("fuzz/seeds").join(t);
+        let _ = std::fs::create_dir_all(&dir);
+        for i in 0..12 {
+            let bytes: Vec<u8> = match *t {
+                "c12_bytes" | "c14_annexb" => {
+                    let c = props::c12::parser_case_strategy_for_seeds().new_tree(&mut runner).unwrap().current();
+                    let mut v = vec![0u8, 0, 0, 0, 0, 0];
+                    if *t == "c14_annexb" {
+                        v.clear();
+                    }
+                    v.extend_from_slice(&c.data);
+                    v
+                }
+                _ => proptest::collection::vec(proptest::prelude::any::<u8>(), 48..400).new_tree(&mut runner).unwrap().current(),
+            };
+            let _ = std::fs::write(dir.join(format!("seed{:02}", i)), bytes);
         }
     }
 }
